@@ -82,12 +82,32 @@ class Semantics(Stage):
             res.count('matchers')
             for f in feats:
                 res.label('feature:' + f)
+        if any(len(getattr(a, 'labels', [])) >= 2 for m in msgs for a in m.args):
+            res.label('universe-with-multi-label-enum')
+        if any(hasattr(a, 'labels') for m in msgs for a in m.args):
+            res.label('universe-with-enum-label')
         res.nontrivial = nt > 0
         res.count('nontrivial-matchers', nt)
         res.sample = dict(matchers=[rm.render(mm['ast'], rm.Plain()) for mm in case['matchers'][:3]],
                           decorated=[rm.render(mm['ast'], rm.Decor(mm['deco'])) for mm in case['matchers'][:2]],
                           messages=len(case['specs']))
         return res
+
+
+class EnumArgs(Semantics):
+    """dedicated class: universes rich in enum-typed arguments (labels, bitfield unions) x argument-focused matchers"""
+    name = 'enum-arguments'
+    PROFILE = dict(reuse=0.5, weights=dict(delete=6, bind=10, message=24, server_event=4, sync=2, enum=54))
+
+    def examples(self, tier):
+        return 170 if tier == 'quick' else 14 * 1700
+
+    def gen(self, d, tier):
+        specs = histgen.history(d, nconn=d.int(1, 2), nmsg=d.int(8, 28), profile=self.PROFILE)
+        V = rm.vocab(specs)
+        g = rm.Gen(d, V, self.depth(tier), focus='args')
+        ms = [dict(ast=g.top(), deco=[d.int(0, 99) for _ in range(d.int(4, 12))]) for _ in range(6)]
+        return dict(dialect=d.choice(['new', 'old']), specs=specs, matchers=ms)
 
 
 class C05(Prop):
@@ -101,7 +121,7 @@ class C05(Prop):
     assumptions = ['reference semantics = DESIGN appendix A (written from matchers.md and the statement)',
                    'grammar bounds: no empty alternatives/exclusion lists, no * inside exclusions, no object labels as argument values, '
                    'string atoms without quotes/brackets/parentheses/commas/!']
-    stages = [Semantics()]
+    stages = [Semantics(), EnumArgs()]
 
 
 PROP = C05()
